@@ -176,6 +176,12 @@ func (j *c04Journal) record(prop bool, before []byte, do func() error, after fun
 	return err
 }
 
+func (j *c04Journal) note(what string) {
+	j.mtx.Lock()
+	defer j.mtx.Unlock()
+	j.descr = append(j.descr, what)
+}
+
 func (j *c04Journal) restart(why string) {
 	j.mtx.Lock()
 	defer j.mtx.Unlock()
@@ -241,7 +247,7 @@ func c04Incarnation(t *testing.T, conf *cfg.Config, blockDB dbm.DB, j *c04Journa
 	// the crashing WAL may kill it there (a crash during replay), so it gets its own goroutine.
 	startErr := make(chan error, 1)
 	go func() { startErr <- cs.Start() }()
-	receiveRoutineDead := false
+	receiveRoutineDead, started := false, false
 	wait := 20 * time.Second
 	if crashAt == 0 {
 		wait = 3 * time.Second
@@ -252,16 +258,24 @@ func c04Incarnation(t *testing.T, conf *cfg.Config, blockDB dbm.DB, j *c04Journa
 			// the killed receive routine cannot stop the WAL any more; its buffered tail reaches the file
 			csWal.Stop() //nolint:errcheck
 			csWal.Wait()
-		} else {
-			cs.Wait()
+		} else if started {
+			stopped := make(chan struct{})
+			go func() { cs.Wait(); close(stopped) }()
+			select {
+			case <-stopped:
+			case <-time.After(10 * time.Second):
+			}
 		}
 	}()
 	for {
 		select {
 		case err := <-startErr:
 			if err != nil {
-				t.Fatal(err)
+				// the node cannot start on what survived (e.g. an unrepairable WAL): liveness, not C04
+				j.note("node failed to start: " + strings.SplitN(err.Error(), "\n", 2)[0])
+				return "start-failed"
 			}
+			started = true
 		case e := <-walPanicked:
 			receiveRoutineDead = true
 			if _, ok := e.(ReachedHeightToStopError); ok {
